@@ -21,6 +21,7 @@ Definition dout_eqb (a b : dout) : bool :=
   | DAck x, DAck y => x =? y
   | DAlarms x, DAlarms y => list_eqb (fun p q => id_eqb (fst (fst p)) (fst (fst q)) && (snd (fst p) =? snd (fst q)) && String.eqb (snd p) (snd q)) x y
   | DReport c k, DReport c' k' => (c =? c') && id_eqb k k'
+  | DAlarmLists e s, DAlarmLists e' s' => list_eqb id_eqb e e' && list_eqb id_eqb s s'
   | DNone, DNone | DAbort, DAbort => true
   | _, _ => false
   end.
